@@ -29,6 +29,8 @@ THEOREMS = [
     'CpProofs.C14.C14_except_clause_table',
     'CpProofs.C14.run_inv',
     'CpProofs.C14.C14_no_fixation_history',
+    'CpProofs.C14.C14_load_live_any_handler',
+    'CpProofs.C14.C14_persist_any_handler',
     'CpProofs.C14.futureNot_of_drawn',
     'CpProofs.C14.futureNot_of_stored',
 ]
